@@ -107,8 +107,27 @@ func bkind(t types.Type) string {
 		if named, ok := t.(*types.Named); ok && named.Obj().Name() == "DataIdentifier" {
 			return "dataid"
 		}
+		if named, ok := t.(*types.Named); ok && named.Obj().Name() == "OutputConfigurationSetting" {
+			return "osetting"
+		}
+	}
+	if isOConf(t) {
+		return "oconf"
+	}
+	if p, ok := t.Underlying().(*types.Pointer); ok && isOConf(p.Elem()) {
+		return "oconf"
 	}
 	return ""
+}
+
+// isOConf: a slice of OutputConfigurationSetting (the type OutputConfiguration)
+func isOConf(t types.Type) bool {
+	sl, ok := t.Underlying().(*types.Slice)
+	if !ok {
+		return false
+	}
+	named, ok := sl.Elem().(*types.Named)
+	return ok && named.Obj().Name() == "OutputConfigurationSetting"
 }
 
 func coqKind(k string) string {
@@ -125,6 +144,10 @@ func coqKind(k string) string {
 		return "f64"
 	case "dataid":
 		return "(Z * Z * Z)"
+	case "osetting":
+		return "gsetting"
+	case "oconf":
+		return "oslice"
 	}
 	return "unit"
 }
@@ -216,10 +239,19 @@ func (e *benv) expr(n ast.Expr) bex {
 				return bex{g, true}
 			}
 		}
+		if bkind(e.x.info.TypeOf(v.X)) == "osetting" && v.Sel.Name == "OutputFrequency" {
+			a := e.expr(v.X)
+			return e.combine([]bex{a}, func(s []string) string { return "(let '(_, _, _, fr_) := " + s[0] + " in fr_)" })
+		}
 		if pkg, ok := v.X.(*ast.Ident); ok && pkg.Name == "io" && v.Sel.Name == "EOF" {
 			return bex{"(Some (-1))", true}
 		}
 		return bex{e.bad(n, "unsupported selector"), false}
+	case *ast.StarExpr:
+		if bkind(e.x.info.TypeOf(v.X)) == "oconf" {
+			return e.expr(v.X)
+		}
+		return bex{e.bad(n, "unsupported dereference"), false}
 	case *ast.UnaryExpr:
 		x := e.expr(v.X)
 		switch v.Op {
@@ -330,6 +362,10 @@ func (e *benv) expr(n ast.Expr) bex {
 		c := e.combine([]bex{s, i}, func(a []string) string { return "(g_index " + a[0] + " " + a[1] + ")" })
 		return e.flatten(c)
 	case *ast.SliceExpr:
+		if !v.Slice3 && bkind(e.x.info.Types[v.X].Type) == "oconf" && v.Low == nil && v.High != nil {
+			o, hi := e.expr(v.X), e.expr(v.High)
+			return e.flatten(e.combine([]bex{o, hi}, func(a []string) string { return "(g_oreslice " + a[0] + " " + a[1] + ")" }))
+		}
 		if v.Slice3 || bkind(e.x.info.Types[v.X].Type) != "bytes" {
 			return bex{e.bad(n, "unsupported slice expression"), false}
 		}
@@ -393,6 +429,31 @@ func (e *benv) expr(n ast.Expr) bex {
 				}
 			}
 			return bex{e.bad(n, "unsupported conversion"), false}
+		}
+		if id, ok := v.Fun.(*ast.Ident); ok && (id.Name == "cap" || id.Name == "len") && len(v.Args) == 1 && bkind(e.x.info.TypeOf(v.Args[0])) == "oconf" {
+			a := e.expr(v.Args[0])
+			fn := "g_ocap"
+			if id.Name == "len" {
+				fn = "g_olen"
+			}
+			return e.combine([]bex{a}, func(s []string) string { return "(" + fn + " " + s[0] + ")" })
+		}
+		if id, ok := v.Fun.(*ast.Ident); ok && id.Name == "make" && len(v.Args) == 2 && isOConf(tv.Type) {
+			a := e.expr(v.Args[1])
+			return e.flatten(e.combine([]bex{a}, func(s []string) string { return "(g_omake " + s[0] + ")" }))
+		}
+		if id, ok := v.Fun.(*ast.Ident); ok && id.Name == "append" && len(v.Args) == 2 && v.Ellipsis.IsValid() && bkind(tv.Type) == "oconf" {
+			a, l := e.expr(v.Args[0]), e.expr(v.Args[1])
+			return e.combine([]bex{a, l}, func(s []string) string { return "(g_oappend " + s[0] + " " + s[1] + ")" })
+		}
+		if sel, ok := v.Fun.(*ast.SelectorExpr); ok && sel.Sel.Name == "Uint16" && len(v.Args) == 0 {
+			// setting.DataIdentifier.Uint16()
+			if inner, ok := sel.X.(*ast.SelectorExpr); ok && inner.Sel.Name == "DataIdentifier" && bkind(e.x.info.TypeOf(inner.X)) == "osetting" {
+				a := e.expr(inner.X)
+				return e.combine([]bex{a}, func(s []string) string {
+					return "(let '(dt_, cs_, pr_, _) := " + s[0] + " in f_DataIdentifier_Uint16 dt_ cs_ pr_)"
+				})
+			}
 		}
 		if id, ok := v.Fun.(*ast.Ident); ok && id.Name == "make" && len(v.Args) == 2 && bkind(tv.Type) == "bytes" {
 			a := e.expr(v.Args[1])
@@ -512,8 +573,21 @@ func assigned(stmts []ast.Stmt, out map[string]bool) {
 			switch a := n.(type) {
 			case *ast.AssignStmt:
 				for _, l := range a.Lhs {
-					if id, ok := l.(*ast.Ident); ok {
+					if id := rootIdent(l); id != nil {
 						out[id.Name] = true
+					}
+				}
+			case *ast.ExprStmt:
+				if call, ok := a.X.(*ast.CallExpr); ok {
+					if len(call.Args) > 0 {
+						if id := rootIdent(call.Args[0]); id != nil {
+							out[id.Name] = true // PutUint16(x[..], v), copy(x[..], y)
+						}
+					}
+					if sel, ok := call.Fun.(*ast.SelectorExpr); ok {
+						if id := rootIdent(sel.X); id != nil {
+							out[id.Name] = true // x.M(..), (*o)[i].F.M(..)
+						}
 					}
 				}
 			case *ast.IncDecStmt:
@@ -523,6 +597,28 @@ func assigned(stmts []ast.Stmt, out map[string]bool) {
 			}
 			return true
 		})
+	}
+}
+
+// rootIdent: the identifier an lvalue-like expression is rooted in (x, *x, x[i], x[a:b], x.f, (*x)[i].f ...)
+func rootIdent(n ast.Expr) *ast.Ident {
+	for {
+		switch v := n.(type) {
+		case *ast.Ident:
+			return v
+		case *ast.ParenExpr:
+			n = v.X
+		case *ast.StarExpr:
+			n = v.X
+		case *ast.IndexExpr:
+			n = v.X
+		case *ast.SliceExpr:
+			n = v.X
+		case *ast.SelectorExpr:
+			n = v.X
+		default:
+			return nil
+		}
 	}
 }
 
@@ -602,6 +698,21 @@ func (e *benv) block(stmts []ast.Stmt, ret func([]ast.Expr) string, cont func() 
 		call, ok := s.X.(*ast.CallExpr)
 		if !ok {
 			return e.bad(s, "unsupported expression statement")
+		}
+		// (*o)[i].DataIdentifier.SetUint16(x) on an element of a local / receiver configuration
+		if sel, ok := call.Fun.(*ast.SelectorExpr); ok && sel.Sel.Name == "SetUint16" && len(call.Args) == 1 {
+			if fsel, ok := sel.X.(*ast.SelectorExpr); ok && fsel.Sel.Name == "DataIdentifier" {
+				if ix, ok := fsel.X.(*ast.IndexExpr); ok && bkind(e.x.info.TypeOf(ix.X)) == "oconf" {
+					if rid := rootIdent(ix.X); rid != nil {
+						if cur, okv := e.vars[rid.Name]; okv {
+							i, a := e.expr(ix.Index), e.expr(call.Args[0])
+							return bindv(rid.Name, e.flatten(e.combine([]bex{i, a}, func(s []string) string {
+								return "(g_oset_id " + cur + " " + s[0] + " " + s[1] + ")"
+							})))
+						}
+					}
+				}
+			}
 		}
 		// id.SetUint16(x) on a local DataIdentifier value
 		if sel, ok := call.Fun.(*ast.SelectorExpr); ok && sel.Sel.Name == "SetUint16" && len(call.Args) == 1 {
@@ -760,6 +871,25 @@ func (e *benv) block(stmts []ast.Stmt, ret func([]ast.Expr) string, cont func() 
 			}
 			i, v := e.expr(ix.Index), e.expr(s.Rhs[0])
 			return bindv(xid.Name, e.flatten(e.combine([]bex{i, v}, func(a []string) string { return "(g_set " + cur + " " + a[0] + " " + a[1] + ")" })))
+		}
+		if st, ok := s.Lhs[0].(*ast.StarExpr); ok && s.Tok == token.ASSIGN && bkind(e.x.info.TypeOf(st.X)) == "oconf" {
+			if rid, ok := st.X.(*ast.Ident); ok {
+				if _, okv := e.vars[rid.Name]; okv {
+					return bindv(rid.Name, e.expr(s.Rhs[0]))
+				}
+			}
+		}
+		if fsel, ok := s.Lhs[0].(*ast.SelectorExpr); ok && fsel.Sel.Name == "OutputFrequency" && s.Tok == token.ASSIGN {
+			if ix, ok := fsel.X.(*ast.IndexExpr); ok && bkind(e.x.info.TypeOf(ix.X)) == "oconf" {
+				if rid := rootIdent(ix.X); rid != nil {
+					if cur, okv := e.vars[rid.Name]; okv {
+						i, a := e.expr(ix.Index), e.expr(s.Rhs[0])
+						return bindv(rid.Name, e.flatten(e.combine([]bex{i, a}, func(x []string) string {
+							return "(g_oset_freq " + cur + " " + x[0] + " " + x[1] + ")"
+						})))
+					}
+				}
+			}
 		}
 		if sel, ok := s.Lhs[0].(*ast.SelectorExpr); ok && e.recvName != "" {
 			// c.X = e / c.X += e on a state field
@@ -951,6 +1081,72 @@ func (e *benv) block(stmts []ast.Stmt, ret func([]ast.Expr) string, cont func() 
 			return e.loopCont()
 		}
 		return e.bad(s, "unsupported branch statement")
+	case *ast.RangeStmt:
+		if bkind(e.x.info.TypeOf(s.X)) != "oconf" || s.Tok != token.DEFINE {
+			return e.bad(s, "unsupported range loop")
+		}
+		ki, okK := s.Key.(*ast.Ident)
+		vi, okV := s.Value.(*ast.Ident)
+		if !okK || !okV {
+			return e.bad(s, "unsupported range loop")
+		}
+		src := e.expr(s.X)
+		if !src.pure {
+			return e.bad(s, "range over an expression that can panic")
+		}
+		as := map[string]bool{}
+		assigned(s.Body.List, as)
+		var names []string
+		for name := range as {
+			if _, outer := e.vars[name]; outer {
+				names = append(names, name)
+			}
+		}
+		sortStrings(names)
+		if len(names) == 0 || as[ki.Name] || as[vi.Name] {
+			return e.bad(s, "unsupported range loop (no state, or the loop variables assigned)")
+		}
+		tupleR := func() string {
+			parts := make([]string, len(names))
+			for i, nme := range names {
+				parts[i] = e.vars[nme]
+			}
+			if len(parts) == 1 {
+				return parts[0]
+			}
+			return "(" + strings.Join(parts, ", ") + ")"
+		}
+		patR := func() string {
+			parts := make([]string, len(names))
+			for i, nme := range names {
+				parts[i] = "v_" + nme
+			}
+			if len(parts) == 1 {
+				return parts[0]
+			}
+			return "'(" + strings.Join(parts, ", ") + ")"
+		}
+		init0 := tupleR()
+		saved := map[string]string{}
+		for _, nme := range names {
+			saved[nme] = e.vars[nme]
+			e.vars[nme] = "v_" + nme
+		}
+		e.vars[ki.Name] = "v_" + ki.Name
+		e.vars[vi.Name] = "v_" + vi.Name
+		body := e.block(s.Body.List, func([]ast.Expr) string { return e.bad(s, "return inside a loop") }, func() string { return "Val " + tupleR() })
+		delete(e.vars, ki.Name)
+		delete(e.vars, vi.Name)
+		st := e.tmp()
+		out := "(do " + st + " <- g_for 0 (g_olen " + src.t + ") " + init0 + " (fun v_" + ki.Name + " " + st + " => let " + patR() + " := " + st +
+			" in do v_" + vi.Name + " <- g_oget " + src.t + " v_" + ki.Name + "; " + body + "); let " + patR() + " := " + st + " in " + rest() + ")"
+		for _, nme := range names {
+			e.vars[nme] = saved[nme]
+		}
+		for _, nme := range names {
+			e.vars[nme] = "v_" + nme
+		}
+		return out
 	case *ast.IncDecStmt:
 		id, ok := s.X.(*ast.Ident)
 		if !ok {
@@ -982,6 +1178,14 @@ func (x *xl) bytesFns(w *bytes.Buffer) {
 	w.WriteString("(* GENERATED by go/xlate (bytesfn.go) from message.go, mtdata2.go, scanmessages.go: the byte-slice functions,\n   statement by statement, in the Go fragment of Base/GoBytes.v.  Do not edit. *)\n")
 	w.WriteString("From Coq Require Import ZArith NArith List Bool.\nRequire Import XS.Base.Bytes XS.Base.GoInt XS.Base.GoBytes XS.Gen.Funcs.\nImport ListNotations.\nOpen Scope Z_scope.\n\n")
 	x.renderFns(w, bytesFuncs)
+}
+
+var confFuncs = []bfnSpec{{"OutputConfiguration", "Unmarshal"}, {"OutputConfiguration", "Marshal"}}
+
+func (x *xl) confFns(w *bytes.Buffer) {
+	w.WriteString("(* GENERATED by go/xlate (bytesfn.go) from outputconfiguration.go: OutputConfiguration.Unmarshal and Marshal, statement by\n   statement.  A configuration value is its backing array up to the capacity and its length (Base/GoBytes.v: oslice).\n   Do not edit. *)\n")
+	w.WriteString("From Coq Require Import ZArith NArith List Bool.\nRequire Import XS.Base.Bytes XS.Base.GoInt XS.Base.GoBytes XS.Gen.Funcs XS.Base.GoConf.\nImport ListNotations.\nOpen Scope Z_scope.\n\n")
+	x.renderFns(w, confFuncs)
 }
 
 func (x *xl) fixedFns(w *bytes.Buffer) {
@@ -1049,11 +1253,26 @@ func (x *xl) renderFns(w *bytes.Buffer, list []bfnSpec) {
 		for i, k := range rkinds {
 			rtypes[i] = coqKind(k)
 		}
+		// a pointer receiver whose target is rewritten (*o = ...) and that also returns results: the receiver's final
+		// value is appended to the results
+		recvExtra := ""
+		if len(rkinds) > 0 && fd.Recv != nil && len(fd.Recv.List) == 1 && len(fd.Recv.List[0].Names) == 1 {
+			if _, isPtr := fd.Recv.List[0].Type.(*ast.StarExpr); isPtr && bkind(x.info.TypeOf(fd.Recv.List[0].Type)) == "oconf" && sp.name == "Unmarshal" {
+				recvExtra = fd.Recv.List[0].Names[0].Name
+			}
+		}
+		nres := len(rkinds)
+		if recvExtra != "" {
+			rtypes = append(rtypes, "oslice")
+		}
 		ret := func(results []ast.Expr) string {
-			if len(results) != len(rkinds) {
+			if len(results) != nres {
 				return e.bad(fd, "bare return")
 			}
 			var ops []bex
+			if recvExtra != "" {
+				defer func() {}()
+			}
 			for i, r := range results {
 				b := e.expr(r)
 				if b.t == "NIL" {
@@ -1064,6 +1283,9 @@ func (x *xl) renderFns(w *bytes.Buffer, list []bfnSpec) {
 					}
 				}
 				ops = append(ops, b)
+			}
+			if recvExtra != "" {
+				ops = append(ops, bex{e.vars[recvExtra], true})
 			}
 			c := e.combine(ops, func(a []string) string {
 				if len(a) == 1 {
